@@ -2,9 +2,10 @@
 Model of the Voronoi view's edge navigation (`public_handles.rs`): every `DirectedVoronoiEdge` method
 follows one link of its dual Delaunay edge; which link is read off the source by T0
 (`Generated.vorRev/vorNext/vorPrev`, `cwPath`/`ccwPath` for the composite links).  The judge of the
-`vor` operation compares the implementation's answers with these definitions (clause
-`voronoi-edge-structure-wrong`), the theorems in `Properties/C18.lean` connect them with the
-property's wording.
+`vor` operation compares the implementation's answers with the *specification* (`veStructOK`: the
+dual relations written with `ccw`/`cw`/`rev`), independently of this file; `C18_code_links` proves
+that the generated navigation is that specification, so a change of the code breaks the theorem and
+the judge reports the concrete history.
 -/
 import Spade.Spec
 import Spade.Generated.Leaf
